@@ -45,11 +45,17 @@ def hypervolume_cases(ctx, viol, st):
     for _ in range(8 if ctx.quick else 80):
         m = rng.choice([2, 2, 3])
         cones = gen.CONES_2D if m == 2 else gen.CONES_3D
-        cn = rng.choice([c for c in cones if len(cones[c][0]) <= 3])
+        # pointed cones and pairwise distinct predicted values: with equivalent predictions the representative that
+        # get_pareto_set keeps depends on the (random) order of the Sobol samples, and the true values of different
+        # representatives differ — the result would not be a function of the inputs
+        cn = rng.choice([c for c in cones if len(cones[c][0]) <= 3 and cones[c][1]])
         W = cones[cn][0]
         K = rng.randint(3, 7)
         Y = np.array([[rng.randint(-8, 8) / 4.0 for _ in range(m)] for _ in range(K)])
-        Yp = Y + np.array([[rng.choice([0, 0, 0.5, -0.5, 1.0, -1.5]) for _ in range(m)] for _ in range(K)])
+        while True:
+            Yp = Y + np.array([[rng.choice([0, 0, 0.5, -0.5, 1.0, -1.5]) for _ in range(m)] for _ in range(K)])
+            if len({tuple(r) for r in Yp.tolist()}) == K:
+                break
         order = impl.order_from_W(W)
 
         class Prob:
